@@ -35,6 +35,13 @@ Contents(d) == Prod(LAMBDA i : d[i], Len(d))
 (* lexicographic order *)
 Less(v, w) ==
   \E i \in 1..Len(v) : v[i] < w[i] /\ \A j \in 1..(i - 1) : v[j] = w[j]
+(* the other three ordering operators as fcppt derives them from < (vector/comparison.hpp,
+   dim/comparison.hpp): a > b iff b < a, a <= b iff not b < a, a >= b iff not a < b *)
+Gt(v, w) == Less(w, v)
+Le(v, w) == ~Less(w, v)
+Ge(v, w) == ~Less(v, w)
+(* element access for writing: at<i>(v) = x, v.x() = x, ... leave every other component alone *)
+SetAt(v, i, x) == [v EXCEPT ![i] = x]
 (* bit_strings<N>: 2^N vectors; in the k-th (0-based) one, component i is bit i-1 of k *)
 BitStrings(n) == [k \in 1..Pow2(n) |-> [i \in 1..n |-> ((k - 1) \div Pow2(i - 1)) % 2]]
 
@@ -67,6 +74,9 @@ Minor(A, i, j) == IF Rows(A) = 1 THEN 1 ELSE Det(DeleteRowAndColumn(A, i, j))
 Adj(A) == MInit(Rows(A), Rows(A), LAMBDA i, j : Sign(i + j) * Minor(A, j, i))
 Translation(x, y, z) == <<<<1, 0, 0, x>>, <<0, 1, 0, y>>, <<0, 0, 1, z>>, <<0, 0, 0, 1>>>>
 Scaling(x, y, z) == <<<<x, 0, 0, 0>>, <<0, y, 0, 0>>, <<0, 0, z, 0>>, <<0, 0, 0, 1>>>>
+(* writing one element / one row of a matrix (at_r_c<i,j>(A) = x, A.mij() = x, row view = v) *)
+MSetAt(A, i, j, x) == [A EXCEPT ![i] = SetAt(A[i], j, x)]
+SetRow(A, i, v) == [A EXCEPT ![i] = v]
 TransformPoint(A, v) == NarrowCast(MVec(A, PushBack(v, 1)), 3)
 TransformDirection(A, v) == NarrowCast(MVec(A, PushBack(v, 0)), 3)
 
@@ -96,6 +106,15 @@ VDivScalar(v, k) == OptAll([i \in 1..Len(v) |-> OptDiv(v[i], k)])
 VMod(v, w) == OptAll([i \in 1..Len(v) |-> OptMod(v[i], w[i])])
 VModScalar(v, k) == OptAll([i \in 1..Len(v) |-> OptMod(v[i], k)])
 VCeilDivSigned(v, k) == OptAll([i \in 1..Len(v) |-> OptCeilDiv(v[i], k)])
+(* matrix::inverse: "(1 / det) * adjugate" evaluated in the value type; for integers 1 / det is the
+   C++ quotient (1, -1 or 0); det = 0 is outside the domain.
+   1x1 matrices (outside the statement's quantifier, observed only): the adjugate of a 1x1 matrix is
+   <<<<1>>>> (empty minor = 1); fcppt's Laplace fold over the empty 0x0 minor yields 0, so
+   adjugate(1x1) = <<<<0>>>> and inverse(1x1) = 0.  The documentation is silent about 1x1; both values
+   are accepted for exactly this shape (see docs/notes_C14.md, round 3) *)
+AdjAllowed(A) == IF Rows(A) = 1 THEN {<<<<1>>>>, <<<<0>>>>} ELSE {Adj(A)}
+InverseAllowed(A) == {MScale(TruncDiv(1, Det(A)), X) : X \in AdjAllowed(A)}
+Inverse(A) == MScale(TruncDiv(1, Det(A)), Adj(A))
 (* vector::unit: "all components set to 0 expect for component _axis which is set to 1" (0-based axis) *)
 Unit(n, axis) == [i \in 1..n |-> IF i - 1 = axis THEN 1 ELSE 0]
 (* dim::is_quadratic: all extents are equal *)
